@@ -240,6 +240,11 @@ class NullEmitter(Emitter):
         pass
 
 
+# Sentinel for paths that are absent from the emitted data. A falsy
+# datum (0, False, '', []) is a value, not a missing path.
+_MISSING = object()
+
+
 class RAMEmitter(Emitter):
     """
     Accumulate the timeseries history portion of the "emitted" data to a table
@@ -275,8 +280,8 @@ class RAMEmitter(Emitter):
             for t, data in self.saved_data.items():
                 paths_data = []
                 for path in query:
-                    datum = get_in(data, path)
-                    if datum:
+                    datum = get_in(data, path, _MISSING)
+                    if datum is not _MISSING:
                         path_data = (path, datum)
                         paths_data.append(path_data)
                 returned_data[t] = paths_to_dict(paths_data)
